@@ -59,7 +59,7 @@ def sp(xs):
     return " ".join(map(str, xs))
 
 
-def gen_api(rng, i, prec=None, psv=None, wide=None, bad=False):
+def gen_api(rng, i, prec=None, psv=None, wide=None, bad=False, splits=False):
     prec = prec or rng.range(2, 16)
     psv = psv or rng.range(1, 7)
     pt = 0 if rng.chance(1, 2) else rng.range(0, prec - 1)
@@ -70,6 +70,9 @@ def gen_api(rng, i, prec=None, psv=None, wide=None, bad=False):
             pt = rng.choice([prec, prec + 1, 16, -1])
     w = wide or rng.choice(WIDTHS)
     h = rng.choice([1, 1, 2, 3, 4, 5, 8]) if not wide else rng.choice([2, 3])
+    if splits:     # small image: the stream is cut at EVERY byte position
+        w = rng.choice([1, 2, 3, 7, 9])
+        h = rng.choice([1, 2, 3, 4])
     kind = "tj" if rng.chance(1, 2) else "lj"
     nc = rng.choice([1, 3, 3, 4]) if kind == "tj" else rng.choice([1, 2, 3, 3, 4, 4, rng.range(5, 10)])
     rmode = rng.choice([0, 0, 1, 1, 2]) if not wide else 1
@@ -112,13 +115,16 @@ def gen_api(rng, i, prec=None, psv=None, wide=None, bad=False):
                 p = (rng.range(1, 7), 0 if rng.chance(1, 2) else rng.range(0, prec - 1))
                 pairs += [p] * (min(3, nc - g) if scanmode == 4 else 1)
     pairs = (pairs + [pairs[-1]] * nc)[:nc]
+    # how the libjpeg decode is fed: 0 = jpeg_mem_src, else a suspending source manager
+    sus = -1 if splits else rng.choice([0, 0, 1, 3, 7, 16, 61, -2, -2]) if not wide else rng.choice([0, 4096, 61])
+    seed = rng.below(1 << 30)
     ck = KINDS[i % len(KINDS)] if rng.chance(1, 2) else rng.choice(KINDS)
     planes = [content(rng, ck, prec, w, h) for _ in range(nc)]
-    line = "api %s %d %d %d %d %d %d %d %d %d %d %d %d | %s | %s" % (
-        kind, prec, w, h, nc, ri, rmode, rval, pf, bottomup, pad, scanmode, bufimg,
+    line = "api %s %d %d %d %d %d %d %d %d %d %d %d %d %d %d | %s | %s" % (
+        kind, prec, w, h, nc, ri, rmode, rval, pf, bottomup, pad, scanmode, bufimg, sus, seed,
         sp([x for p in pairs for x in p]), " | ".join(sp(p) for p in planes))
     meta = {"prec": prec, "w": w, "h": h, "nc": nc, "ri": ri, "pairs": pairs, "planes": planes, "kind": kind, "bad": bad,
-            "key": (kind, prec, psv, pt != 0, w, h, nc, rmode, ck, scanmode, pf)}
+            "key": (kind, prec, psv, pt != 0, w, h, nc, rmode, ck, scanmode, pf, sus)}
     return line, "api-" + kind, meta
 
 
@@ -309,6 +315,10 @@ def run(ctx):
             i += 1
     while i < napi:
         line, kind, meta = gen_api(rng, i)
+        cases.append((line, "api", kind, meta))
+        i += 1
+    for _ in range(ctx.n(120, 3000)):       # every split position of the stream, suspending source
+        line, kind, meta = gen_api(rng, i, splits=True)
         cases.append((line, "api", kind, meta))
         i += 1
     for _ in range(ctx.n(40, 1000)):
